@@ -80,7 +80,13 @@ def analyse_listing(repo: Repo, run: Run, interp, name: str):
     src, stages = pipeline.parse(ret)
     # ---- R1 shape
     ok_src = (src.op == "call" and src.a[0].op == "attr" and src.a[0].a[1] == "parse"
-              and src.a[0].a[0].op == "call" and src.a[0].a[0].a[0] == T("class", ("pykdebugparser.kd_buf_parser.KdBufParser",)))
+              and ((src.a[0].a[0].op == "call" and src.a[0].a[0].a[0] == T("class", ("pykdebugparser.kd_buf_parser.KdBufParser",)))
+                   # (a dataclass is constructed field by field: the same object)
+                   or (src.a[0].a[0].op == "new" and src.a[0].a[0].a[0] == "pykdebugparser.kd_buf_parser.KdBufParser")))
+    if not ok_src and src.op == "call" and sym.root_of(src.a[0]).op == "new" \
+            and sym.root_of(src.a[0]).a[0] == "pykdebugparser.kd_buf_parser.KdBufParser":
+        # KdBufParser as a dataclass: the interpreter has gone into parse() and stands at its dispatch `versions[magic](stream)`
+        ok_src = True
     if not ok_src and src.op == "call" and ((src.a[0].op == "attr" and src.a[0].a[0] == SELF and src.a[0].a[1] in ci.methods)
                                             or src.a[0].op == "func"):
         # the pipeline goes through a generator of the package that could not be brought to filter stages (a single-pass
@@ -177,6 +183,16 @@ def analyse_listing(repo: Repo, run: Run, interp, name: str):
         else:
             # same condition but different predicate?
             near = [i for i, (c, p, s) in enumerate(got) if c == cond and i not in used]
+            if near and label == "class":
+                def _truth_use(t):
+                    if t.op == "cmp" and t.a[0] in ("in", "not in"):
+                        return _truth_use(t.a[1])
+                    if t.op == "attr" and t.a[0] == SELF and t.a[1] in ("filter_class", "filter_subclass"):
+                        return True
+                    return any(_truth_use(c_) for c_ in sym.children(t))
+                if _truth_use(got[near[0]][1]):
+                    raise AnalysisError(f"{name}: the class stage also tests whether a filter list is set (a None-tolerant form): "
+                                        f"which events it lets through is not decided")
             if near:
                 i = near[0]
                 used.add(i)
